@@ -744,16 +744,16 @@ Example rri_interleave_traces :
   rri p_interleave = p_interleave.
 Proof. repeat split; reflexivity. Qed.
 
-(* 48376de (F02-65): list(xs) is a snapshot; the body mutates xs *)
+(* 116947d (F02-65): list(xs) is a snapshot; the body mutates xs *)
 Definition p_snapshot : prog :=
   [SS (SAssign 9%nat (EDisp [1; 2; 3])); SFor 8%nat (ECall FList (EAtom (AVar 9%nat))) [SRemove 9%nat (AVar 8%nat)];
    SS (SPrint (EAtom (AVar 9%nat)))].
-Theorem rri_before_48376de_refuted :
-  exists W fuel p, obs (run W fuel (rri_before_48376de p)) <> obs (run W fuel p).
+Theorem rri_before_116947d_refuted :
+  exists W fuel p, obs (run W fuel (rri_before_116947d p)) <> obs (run W fuel p).
 Proof. exists W12, 5%nat, p_snapshot. differs. Qed.
 Example rri_snapshot_traces :
   obs (run W12 5%nat p_snapshot) = (None, [EvPrint (RList [])]) /\
-  obs (run W12 5%nat (rri_before_48376de p_snapshot)) = (None, [EvPrint (RList [2])]) /\
+  obs (run W12 5%nat (rri_before_116947d p_snapshot)) = (None, [EvPrint (RList [2])]) /\
   rri p_snapshot = p_snapshot.
 Proof. repeat split; reflexivity. Qed.
 (* an immutable collection that has a name is still iterated over directly *)
@@ -775,9 +775,9 @@ Example oct_consumed_traces :
   oct p_consumed = p_consumed.
 Proof. repeat split; reflexivity. Qed.
 
-(* 653d272: a generator expression stops at the first hit, the list comprehension runs to the end *)
+(* 1454583: a generator expression stops at the first hit, the list comprehension runs to the end *)
 Definition p_lazy : prog := [SS (SPrint (EIn (AInt 1) (EComp (EGen 0%nat))))].
-Theorem oct_before_653d272_refuted :
+Theorem oct_before_1454583_refuted :
   exists W fuel p, obs (run W fuel (oct_before_2835a2e p)) <> obs (run W fuel p).
 Proof. exists W12, 5%nat, p_lazy. differs. Qed.
 Example oct_lazy_traces :
